@@ -49,6 +49,24 @@ def _scan(fn, meta, where):
             raise TranslateError("%s: unrecognised construct %s" % (where, type(node).__name__))
     return reset, calls
 
+def _refers_to_super(fn, meth):
+    for node in ast.walk(fn):
+        if isinstance(node, ast.Attribute) and node.attr == meth and isinstance(node.value, ast.Call) \
+                and isinstance(node.value.func, ast.Name) and node.value.func.id == "super":
+            return True
+    return False
+
+def _next_impl(src, rel, cname, cur_r, cur_n, meth):
+    """the implementation of `meth` that follows class (cur_r, cur_n) in the MRO of (rel, cname)"""
+    after = False
+    for r, n in src.mro(rel, cname):
+        if after:
+            for st in src.classdef(r, n).body:
+                if isinstance(st, ast.FunctionDef) and st.name == meth:
+                    return (r, n, st)
+        if (r, n) == (cur_r, cur_n): after = True
+    return None
+
 def meta_rows(repo):
     src = Source(repo)
     rows = []
@@ -66,6 +84,19 @@ def meta_rows(repo):
                 if len(body) == 1 and isinstance(body[0], ast.Raise):
                     raise TranslateError("%s is abstract" % where)
                 reset, calls = _scan(fn, meta, where)
+                # delegation: a body that refers to super(...).<same method> (called, or handed to a helper that calls it)
+                # inherits what the next implementation in the MRO resets; followed transitively
+                cur_r, cur_n, cur_fn = r, n, fn
+                seen = 0
+                while _refers_to_super(cur_fn, meth):
+                    nxt = _next_impl(src, rel, cname, cur_r, cur_n, meth)
+                    if nxt is None:
+                        raise TranslateError("%s delegates to super().%s but no further implementation exists" % (where, meth))
+                    cur_r, cur_n, cur_fn = nxt
+                    r2, c2 = _scan(cur_fn, meta, "%s.%s (inherited from %s)" % (cname, meth, cur_n))
+                    reset |= r2; calls += c2
+                    seen += 1
+                    if seen > 8: raise TranslateError("%s: delegation chain too long" % where)
                 rows.append((cname, meth, n, kind, [s in reset for s in SUF], sorted(set(c for c in calls if c.endswith("_" + kind)))))
     return rows
 
